@@ -35,6 +35,7 @@ Definition stream_next_typed (E : env) (t : ty) (ss : sstate) : option titem * s
         if self_delineated then (Some (TIVal v), ss2)
         else match peek_end_of_value E s2 with
              | Ok s3 => (Some (TIVal v), mkSS s3 (off s2) (ss_failed ss))
+             | Err (Io k) i => (Some (TIErr (Io k) i), set_failed E ss2)    (* an I/O error while looking ahead is terminal (fix F16) *)
              | r => (Some (res_titem r), ss2)
              end
       | r => (Some (tres_item r), set_failed E ss1)
